@@ -1,8 +1,7 @@
 (* C14 (family jbinn), deepening round: the three forms of a document - JSON text, tree, binary - together.
    1. print_agree: the text jbl_as_json writes from the binary form (JSON/BinnAcc.v, walking the binn iterators) is the text
-      jbn_as_json writes from the tree (C13's printer model JSON/Text.v, imported) for every flag set with the one-space
-      indentation; for the other flag sets the binary printer ignores the indentation bits (normal form `pf_jbl`), and
-      the full statement is refuted by a witness.
+      jbn_as_json writes from the tree (C13's printer model JSON/Text.v, imported) for EVERY flag set (library fix d42c39c; the
+      earlier normal form `pf_jbl` and the refutation for INDENT2 / INDENT4 are gone).
    2. conversion orders: every chain of conversions text <-> tree <-> binary starting from a document of the domain ends
       in a form that denotes that document (C14's round trips composed with C13's parse (print v) = v). *)
 Require Import ZArith List Bool Lia. Import ListNotations.
@@ -57,54 +56,6 @@ Proof.
 Qed.
 
 (* ------------------------------------------------------------------ print_agree *)
-(* the flags the binary printer looks at: JBL_PRINT_PRETTY and JBL_PRINT_CODEPOINTS; the indentation bits are ignored *)
-Definition pf_jbl (pf : Z) : Z := Z.land pf (Z.lor JBL_PRINT_PRETTY JBL_PRINT_CODEPOINTS).
-
-Lemma has_pf_jbl_pretty pf : has (pf_jbl pf) JBL_PRINT_PRETTY = has pf JBL_PRINT_PRETTY.
-Proof. unfold has, pf_jbl. rewrite <- Z.land_assoc. reflexivity. Qed.
-Lemma has_pf_jbl_cp pf : has (pf_jbl pf) JBL_PRINT_CODEPOINTS = has pf JBL_PRINT_CODEPOINTS.
-Proof. unfold has, pf_jbl. rewrite <- Z.land_assoc. reflexivity. Qed.
-Lemma indent_pf_jbl pf : indent (pf_jbl pf) = 1.
-Proof.
-  unfold indent, has, pf_jbl. rewrite <- !Z.land_assoc.
-  change (Z.land (Z.lor JBL_PRINT_PRETTY JBL_PRINT_CODEPOINTS) (Z.land (uw 32 (Z.lnot JBL_PRINT_PRETTY)) JBL_PRINT_PRETTY_INDENT2)) with 0.
-  change (Z.land (Z.lor JBL_PRINT_PRETTY JBL_PRINT_CODEPOINTS) (Z.land (uw 32 (Z.lnot JBL_PRINT_PRETTY)) JBL_PRINT_PRETTY_INDENT4)) with 0.
-  rewrite Z.land_0_r. reflexivity.
-Qed.
-
-Lemma wstr_ext pf pf' : has pf JBL_PRINT_CODEPOINTS = has pf' JBL_PRINT_CODEPOINTS ->
-  forall fuel s, wstr fuel pf s = wstr fuel pf' s.
-Proof.
-  intros Hc. induction fuel as [|f IH]; intros s; [reflexivity|]. cbn [wstr]. destruct s as [|ch r]; [reflexivity|].
-  rewrite <- Hc. rewrite !IH.
-  destruct ((ch =? 34) || (ch =? 92)); [reflexivity|].
-  destruct ((8 <=? ch) && (ch <=? 13) && negb (ch =? 11)); [reflexivity|].
-  destruct (ch <? 32); [reflexivity|]. destruct (isprint ch); [reflexivity|].
-  destruct (has pf JBL_PRINT_CODEPOINTS); [|reflexivity].
-  destruct (iterate (ch :: r)) as [[cp sz]|]; [|reflexivity]. rewrite !IH. reflexivity.
-Qed.
-
-Lemma wjs_ext pf pf' s : has pf JBL_PRINT_CODEPOINTS = has pf' JBL_PRINT_CODEPOINTS ->
-  write_json_string pf s = write_json_string pf' s.
-Proof. intros Hc. unfold write_json_string. rewrite (wstr_ext pf pf' Hc). reflexivity. Qed.
-
-Lemma print_jbl_ext fo pf pf' : has pf JBL_PRINT_PRETTY = has pf' JBL_PRINT_PRETTY ->
-  has pf JBL_PRINT_CODEPOINTS = has pf' JBL_PRINT_CODEPOINTS ->
-  forall v lvl, print_jbl fo pf lvl v = print_jbl fo pf' lvl v.
-Proof.
-  intros Hp Hc. induction v as [|bb|n|x|s|l IH|ms IH] using jval_ind'; intros lvl; try reflexivity.
-  - cbn [print_jbl]. apply wjs_ext. assumption.
-  - cbn [print_jbl]. rewrite <- Hp.
-    match goal with |- match ?g1 l with _ => _ end = match ?g2 l with _ => _ end => assert (Hg : g1 l = g2 l) end.
-    { induction IH as [|x r Hx Hr IHr]; [reflexivity|]. cbn beta iota. rewrite (Hx (lvl + 1)), IHr. reflexivity. }
-    rewrite Hg. reflexivity.
-  - cbn [print_jbl]. rewrite <- Hp.
-    match goal with |- match ?g1 ms with _ => _ end = match ?g2 ms with _ => _ end => assert (Hg : g1 ms = g2 ms) end.
-    { induction IH as [|[k x] r Hx Hr IHr]; [reflexivity|]. cbn beta iota. cbn [snd] in Hx.
-      rewrite (wjs_ext pf pf' (cstr0 k) Hc). rewrite (Hx (lvl + 1)), IHr. reflexivity. }
-    rewrite Hg. reflexivity.
-Qed.
-
 (* the binary printer on the encoding of v = the value-level printer of the binary form (C13's print_jbl) on v *)
 Theorem jbl_as_json_binn_value : forall fo pf v bs, Binn.wf v = true -> binn_encode v = Some bs ->
   jbl_as_json_binn fo pf bs = lift (jbl_as_json fo pf v).
@@ -114,31 +65,15 @@ Proof.
   pose proof (depth_le_len v bs He'). lia.
 Qed.
 
-(* print_agree, every flag set: the binary form prints what the tree prints under the flags with the indentation bits
-   cleared *)
-Theorem print_agree_flags : forall fo pf v bs, Binn.wf v = true -> binn_encode v = Some bs ->
-  jbl_as_json_binn fo pf bs = lift (as_json fo (pf_jbl pf) v).
-Proof.
-  intros fo pf v bs Hw He. rewrite (jbl_as_json_binn_value fo pf v bs Hw He). unfold jbl_as_json, as_json. f_equal.
-  rewrite (print_jbl_ext fo pf (pf_jbl pf) (eq_sym (has_pf_jbl_pretty pf)) (eq_sym (has_pf_jbl_cp pf))).
-  apply print_jbl_eq; [apply wf_nulfree; assumption|apply indent_pf_jbl].
-Qed.
-
-(* print_agree as the property states it, for the flag sets with the one-space indentation (no flag, PRETTY, CODEPOINTS,
-   PRETTY|CODEPOINTS and any other bits that are not the INDENT2 / INDENT4 bits) *)
-Theorem print_agree : forall fo pf v bs, Binn.wf v = true -> binn_encode v = Some bs -> indent pf = 1 ->
+(* print_agree as the property states it, for EVERY flag set (JBL_PRINT_PRETTY, _CODEPOINTS, _PRETTY_INDENT2, _PRETTY_INDENT4
+   and any other bits): the text printed from the binary form is the text printed from the tree; a printer error (invalid
+   UTF-8 under JBL_PRINT_CODEPOINTS) is the same error on both sides.  Unconditional since the library fix d42c39c (before it
+   the binary printer ignored the indentation bits and the statement had a refutation for INDENT2 / INDENT4). *)
+Theorem print_agree : forall fo pf v bs, Binn.wf v = true -> binn_encode v = Some bs ->
   jbl_as_json_binn fo pf bs = lift (as_json fo pf v).
 Proof.
-  intros fo pf v bs Hw He Hi. rewrite (jbl_as_json_binn_value fo pf v bs Hw He). unfold jbl_as_json, as_json. f_equal.
-  apply print_jbl_eq; [apply wf_nulfree; assumption|assumption].
-Qed.
-
-(* ... and NOT for JBL_PRINT_PRETTY_INDENT2 / _INDENT4: the tree printer indents by 2 / 4, the binary printer by 1 *)
-Theorem print_agree_refuted : exists fo pf v bs, Binn.wf v = true /\ binn_encode v = Some bs /\
-  jbl_as_json_binn fo pf bs <> lift (as_json fo pf v).
-Proof.
-  exists (fun _ => []), JBL_PRINT_PRETTY_INDENT2, (JArr [JI64 1]), [224; 5; 1; 32; 1].
-  split; [reflexivity|]. split; [vm_compute; reflexivity|]. vm_compute. discriminate.
+  intros fo pf v bs Hw He. rewrite (jbl_as_json_binn_value fo pf v bs Hw He). unfold jbl_as_json, as_json. f_equal.
+  apply print_jbl_eq. apply wf_nulfree; assumption.
 Qed.
 
 (* ------------------------------------------------------------------ conversion orders *)
@@ -182,9 +117,9 @@ Section Forms.
     - intros b b' _ He Hc. destruct (binn_clone_same v b He) as [Hc' _]. rewrite Hc' in Hc. injection Hc as <-. exact He.
     - intros b b' _ He Hc. destruct (binn_clone_same v b He) as [_ Hc']. rewrite Hc' in Hc. injection Hc as <-. exact He.
     - intros pf t x _ -> Hp. apply (print_parse ora fo pf v x Hwt Hd Hp).
-    - intros pf b x _ He Hp. rewrite (print_agree_flags fo pf v b Hw He) in Hp.
-      destruct (as_json fo (pf_jbl pf) v) as [x'|e] eqn:E; [|discriminate]. cbn [lift] in Hp. injection Hp as <-.
-      apply (print_parse ora fo (pf_jbl pf) v x' Hwt Hd E).
+    - intros pf b x _ He Hp. rewrite (print_agree fo pf v b Hw He) in Hp.
+      destruct (as_json fo pf v) as [x'|e] eqn:E; [|discriminate]. cbn [lift] in Hp. injection Hp as <-.
+      apply (print_parse ora fo pf v x' Hwt Hd E).
   Qed.
 End Forms.
 
@@ -193,17 +128,13 @@ End Forms.
    C13's theorem *)
 Theorem conversions_total : forall ora fo pf v, Binn.wf v = true -> fits v = true -> is_container v = true ->
   nodbl v = true -> TextSpec.depth v <= JBL_MAX_NESTING_LEVEL -> has pf JBL_PRINT_CODEPOINTS = false ->
-  exists bs x xb, binn_encode v = Some bs /\ binn_decode bs = Some v /\
-                  as_json fo pf v = Ok x /\ from_json ora x = Ok (Some v) /\
-                  jbl_as_json_binn fo pf bs = BOk xb /\ from_json ora xb = Ok (Some v).
+  exists bs x, binn_encode v = Some bs /\ binn_decode bs = Some v /\
+               as_json fo pf v = Ok x /\ jbl_as_json_binn fo pf bs = BOk x /\ from_json ora x = Ok (Some v).
 Proof.
   intros ora fo pf v Hw Hf Hc Hn Hd Hcp. destruct (encode_total v Hw Hf Hc) as (bs & He & _).
   pose proof (wf_text v Hw Hn) as Hwt.
   destruct (print_total fo pf v 0 Hwt Hcp) as (x & Hx).
-  assert (Hcp' : has (pf_jbl pf) JBL_PRINT_CODEPOINTS = false) by (rewrite has_pf_jbl_cp; assumption).
-  destruct (print_total fo (pf_jbl pf) v 0 Hwt Hcp') as (xb & Hxb).
-  exists bs, x, xb. split; [assumption|]. split; [apply binn_roundtrip; assumption|].
-  split; [exact Hx|]. split; [apply (print_parse ora fo pf v x Hwt Hd Hx)|].
-  split; [rewrite (print_agree_flags fo pf v bs Hw He); unfold as_json; rewrite Hxb; reflexivity|].
-  apply (print_parse ora fo (pf_jbl pf) v xb Hwt Hd Hxb).
+  exists bs, x. split; [assumption|]. split; [apply binn_roundtrip; assumption|].
+  split; [exact Hx|]. split; [rewrite (print_agree fo pf v bs Hw He); unfold as_json; rewrite Hx; reflexivity|].
+  apply (print_parse ora fo pf v x Hwt Hd Hx).
 Qed.
